@@ -205,6 +205,43 @@ def shuffle_modes(ctx, n=None):
             t_ = rng.choice(w["tests"]) if w["tests"] else None
             if t_ is not None and not t_.get("doctest"):
                 t_["setUp"]["atexit_fd2"] = rng.choice(["fixture-server: stopped\n", "bye\n", "2 leaked handles\n"])
+        if i % 4 == 3:
+            # a layer whose report announces more failures and errors than tests run (one test, two failing sub-tests),
+            # and a test that writes a lot to the real stderr of its process (warnings of a C library, a helper's log)
+            non_unit = [k for k, l in enumerate(w["layers"]) if l["kind"] != "unit"]
+            if non_unit:
+                li = rng.choice(non_unit)
+                keep = None
+                for t in list(w["tests"]):
+                    if t["layer"] == li:
+                        if keep is None:
+                            keep = t
+                            fresh = worlds.gen_test(rng, t["id"], [2 * 10 ** 6 + 100 * t["id"]], kind="subFail2", p_write=0.0)
+                            for key in ("layer", "module"):
+                                fresh[key] = t[key]
+                            for key in ("rebind", "ownstream", "label", "doctest"):
+                                fresh.pop(key, None)
+                            t.clear()
+                            t.update(fresh)
+                        else:
+                            w["tests"].remove(t)
+                dead = {t["id"] for t in w["tests"]}
+
+                def prune(nodes):
+                    out = []
+                    for n_ in nodes:
+                        if n_["t"] == "leaf":
+                            if n_["id"] in dead:
+                                out.append(n_)
+                        else:
+                            n_["kids"] = prune(n_["kids"])
+                            out.append(n_)
+                    return out
+                for m_ in w["modules"].values():
+                    m_["suites"] = prune(m_["suites"])
+            loud = [t for t in w["tests"] if not t.get("doctest")]
+            if loud:
+                rng.choice(loud)["body"]["fd2"] = ("library warning: something is deprecated " + "x" * 60 + "\n") * 3000
         seed = rng.randint(0, 10 ** 6)
         wo = {}
         if i % 4 == 2:
@@ -218,7 +255,7 @@ def shuffle_modes(ctx, n=None):
         i, w, seed, j, argseed, wo = job
         d = os.path.join(ctx.tmp, "sm%05d" % i)
         worlds.materialize(w, d)
-        base = dict(wo, verbose=1, shuffle_seed=seed, argseed=argseed)
+        base = dict(wo, verbose=1, shuffle_seed=seed, argseed=argseed, _timeout=90)
         res = {
             "list1": worlds.run_real(w, dict(base, list=True), d),
             "listj": worlds.run_real(w, dict(base, list=True, processes=j), d),
@@ -252,7 +289,10 @@ def shuffle_modes(ctx, n=None):
         unit_idx = [k for k, l in enumerate(w["layers"]) if l["kind"] == "unit"]
         lf = {k: v for k, v in cw.listing_groups(w, res["listf"].stdout) if v}
         l1_non_unit = {k: v for k, v in l1.items() if k not in unit_idx}
-        if lf != l1_non_unit:
+        hung = [k_ for k_ in ("list1", "listj", "seq", "par", "listf") if res[k_].timeout]
+        if hung:
+            bad = "the %s run did not finish within 90 s" % {"seq": "sequential", "par": "-j %d" % j}.get(hung[0], "--list-tests")
+        elif lf != l1_non_unit:
             bad = "--list-tests -f lists %r, without -f the same layers are listed as %r" % (lf, l1_non_unit)
         elif l1 != lj:
             bad = "--list-tests with -j %d lists %r, without -j %r" % (j, lj, l1)
